@@ -826,10 +826,10 @@ void vrt_free (void *p) {
 }
 
 /* shadow variables for scenario oracles (kept outside the instrumented code) */
-static long shadow[64];
-long vrt_sh_add (int i, long d) { shadow[i & 63] += d; return shadow[i & 63]; }
-long vrt_sh_get (int i) { return shadow[i & 63]; }
-void vrt_sh_set (int i, long v) { shadow[i & 63] = v; }
+static long shadow[256];
+long vrt_sh_add (int i, long d) { shadow[i & 255] += d; return shadow[i & 255]; }
+long vrt_sh_get (int i) { return shadow[i & 255]; }
+void vrt_sh_set (int i, long v) { shadow[i & 255] = v; }
 
 /* ---------- C01 oracle: shadow occupancy ---------- */
 static struct { const void *mu; int w, r; } occ[16];
